@@ -26,15 +26,34 @@ def parseSigner (s : String) : Option Signer :=
     pure ⟨key, kf, kind⟩
   | _ => none
 
-def parseMethod (s : String) : Option Method :=
+def parseSigners (l : String) : Option (List Signer) :=
+  if l.isEmpty then some [] else (l.splitOn "+").mapM parseSigner
+
+def parseBase (s : String) : Option Base :=
   match cut s ":" with
   | ("pw", some pw) => some (.password pw)
   | ("kbd", some "a") => some (.kbd .answerAll)
   | ("kbd", some "w") => some (.kbd .wrongCount)
   | ("kbd", some "f") => some (.kbd .fail)
-  | ("pk", some "") => some (.publickey [])
-  | ("pk", some l) => ((l.splitOn "+").mapM parseSigner).map Method.publickey
+  | ("pk", some l) => (parseSigners l).map Base.publickey
+  | ("pkcb", some l) => ((l.splitOn "|").mapM parseSigners).map Base.publickeyCb
   | _ => none
+
+/-- `<base>` or `rt<maxTries>:<base>` (RetryableAuthMethod; maxTries may be negative) -/
+def parseMethod (s : String) : Option Method :=
+  if s.startsWith "rt" then
+    match cut (s.drop 2).toString ":" with
+    | (n, some rest) => do
+      let n ← n.toInt?
+      let b ← parseBase rest
+      pure ⟨b, some n⟩
+    | _ => none
+  else (parseBase s).map fun b => ⟨b, none⟩
+
+/-- AuthCallback decision: `n` (nil, nil) | `f` (nil, err) | `u=<method>` -/
+def parseDecision (s : String) : Option CbDecision :=
+  if s == "n" then some .next else if s == "f" then some .fail
+  else if s.startsWith "u=" then (parseMethod (s.drop 2).toString).map CbDecision.use else none
 
 def parsePkt (s : String) : Option Srv :=
   match cut s ":" with
@@ -54,6 +73,8 @@ def parsePkt (s : String) : Option Srv :=
   | ("ok.a", some a) => some (.pkOk (.algo a))
   | ("ir", some n) => n.toNat?.map Srv.infoReq
   | ("irb", none) => some .infoReqBad
+  | ("irs", some _) => some .infoReqBad     -- NumPrompts larger than the prompts present
+  | ("irx", some _) => some .infoReqBad     -- more prompt data than NumPrompts announces
   | ("d", none) => some .disconnect
   | ("re", none) => some .readErr
   | ("m", some t) => t.toNat?.map Srv.malformed
@@ -76,8 +97,8 @@ def parseCred (s : String) : Option Cred :=
   match cut s ":" with
   | ("pw", some pw) => some (.password pw)
   | ("kbdr", some a) => some (.kbd a)
-  | ("pk", some "") => some (.publickey [])
-  | ("pk", some l) => ((l.splitOn "+").mapM parseSigner).map Cred.publickey
+  | ("pk", some l) => (parseSigners l).map Cred.publickey
+  | ("pkcb", some l) => ((l.splitOn "|").mapM parseSigners).map Cred.publickeyCb
   | _ => none
 
 /-- `real chain=<m,m…> cli=<cred;cred…> auth=<key id> algs=<list|->` -/
@@ -101,14 +122,23 @@ def handle (line : String) : String :=
   | some user, some auth, some script =>
     let ms := if auth == "-" then some [] else (auth.splitOn ";").mapM parseMethod
     let ps := if script == "-" then some [] else (script.splitOn ";").mapM parsePkt
-    match ms, ps with
-    | some ms, some ps =>
-      let out := run ⟨user, ms⟩ ps
+    let cb : Option (Option (List CbDecision)) := match o.get? "acb" with
+      | none => some none
+      | some "-" => some (some [])
+      | some s => ((s.splitOn ";").mapM parseDecision).map some
+    match ms, ps, cb with
+    | some ms, some ps, some cb =>
+      let out := run ⟨user, ms, cb⟩ ps
       let r := match out.res with
         | .ok => "ok"
         | .err => "err"
-      s!"res={r} w={" ".intercalate (out.events.filterMap showEv)}"
-    | _, _ => "bad-op"
+      let lst (l : List String) : String := if l.isEmpty then "-" else ",".intercalate l
+      let segStr (sg : Seg) : List String :=
+        sg.out.evs.filterMap showEv ++ (match sg.cbCtx with
+          | some (a, p, t) => [s!"CB({lst a}|{lst p}|{lst t})"]
+          | none => [])
+      s!"res={r} w={" ".intercalate (out.pre.filterMap showEv ++ (out.segs.map segStr).flatten)}"
+    | _, _, _ => "bad-op"
   | _, _, _ => "bad-op"
 
 end XC.C34
